@@ -181,6 +181,19 @@ static J run_raise(const J& c)
 
 // A streamable item decided at run time: text, integer, or a user type that prints its number in hexadecimal and - as
 // such types commonly do - leaves the stream in that mode.
+// A type whose own operator<< is written with nitro::format (formatting is re-entrant): Nested{"x"} streams as "<x>".
+struct Nested
+{
+    std::string inner;
+};
+static std::ostream& operator<<(std::ostream& os, const Nested& n)
+{
+    return os << (nitro::format("<{}>") % n.inner);
+}
+static bool looks_nested(const std::string& s)
+{
+    return s.size() >= 2 && s.front() == '<' && s.back() == '>';
+}
 struct Item
 {
     char t;
@@ -189,6 +202,8 @@ struct Item
 };
 static std::ostream& operator<<(std::ostream& os, const Item& it)
 {
+    if (it.t == 's' && looks_nested(it.s))
+        return os << Nested{ it.s.substr(1, it.s.size() - 2) };
     if (it.t == 's')
         return os << it.s;
     if (it.t == 'h')
@@ -272,14 +287,23 @@ static J run_fhist(const J& c)
                     f = std::make_unique<nitro::detail::formatter<char>>(nitro::format(x["fmt"].as_bytes()));
                     for (std::size_t i = 0; i < args.size(); i++)
                     {
-                        if (i % 2 == 0)
+                        // a text of the form <...> is supplied as an object whose operator<< itself uses nitro::format
+                        if (looks_nested(args[i]) && i % 2 == 0)
+                            (*f) % Nested{ args[i].substr(1, args[i].size() - 2) };
+                        else if (looks_nested(args[i]))
+                            f->args(Nested{ args[i].substr(1, args[i].size() - 2) });
+                        else if (i % 2 == 0)
                             (*f) % args[i];
                         else
                             f->args(args[i]);
                     }
                 }
+                else if (cont == "mod" && looks_nested(args.back()))
+                    (*f) % Nested{ args.back().substr(1, args.back().size() - 2) };
                 else if (cont == "mod")
                     (*f) % args.back();
+                else if (cont == "args" && looks_nested(args.back()))
+                    f->args(Nested{ args.back().substr(1, args.back().size() - 2) });
                 else if (cont == "args")
                     f->args(args.back());
                 std::string text = f->str();
